@@ -2136,3 +2136,193 @@ Section DsView.
       rewrite Hccd. reflexivity.
   Qed.
 End DsView.
+
+Lemma mapM_res_lookup {B} (f : string * xvar -> res (string * B)) {W} (G : B -> W) l bs a b :
+  NoDup (map fst l) ->
+  (forall a0 b0, f a0 = Ok b0 -> fst b0 = fst a0) ->
+  mapM_res f l = Ok bs -> In a l -> f a = Ok b ->
+  lookup (fst a) (map (fun no => (fst no, G (snd no))) bs) = Some (G (snd b)).
+Proof.
+  intros Hnd Hfst. revert bs. induction l as [|a0 l IH]; intros bs; simpl; [intros _ []|].
+  destruct (f a0) as [b0|] eqn:Ef; simpl; [|discriminate].
+  destruct (mapM_res f l) as [bs0|] eqn:Em; simpl; [|discriminate].
+  intros E; injection E as <-. simpl in Hnd. apply NoDup_cons_iff in Hnd. destruct Hnd as (Hn1 & Hn2).
+  intros [->|Hin] Hf; simpl.
+  - rewrite Ef in Hf; injection Hf as <-. rewrite (Hfst a b0 Ef), String.eqb_refl. reflexivity.
+  - rewrite (Hfst a0 b0 Ef).
+    destruct (String.eqb (fst a) (fst a0)) eqn:E.
+    + apply String.eqb_eq in E. exfalso. apply Hn1. rewrite <- E. apply in_map. exact Hin.
+    + apply IH; auto.
+Qed.
+
+Section ReprojectDs.
+  Variables (tol itol : Q) (src : xobj) (dst : gbox) (nd : option Q) (out : xobj) (cd : crs).
+  Variables (fyl fxl : Z -> Q) (ay ax : attrs) (Py P : option aff) (cc : coord).
+  Local Notation dy := (fst (crs_dims (g_crs dst))).
+  Local Notation dx := (snd (crs_dims (g_crs dst))).
+  Local Notation ny := (g_ny dst).
+  Local Notation nx := (g_nx dst).
+  Local Notation sr := DEFAULT_CRS_COORD_NAME.
+  Local Notation cy := (Coord [dy] (map fyl (iota ny)) ay Py).
+  Local Notation cx := (Coord [dx] (map fxl (iota nx)) ax P).
+  Local Notation new := ([(dy, cy); (dx, cx); (sr, cc)] : coords).
+  Hypothesis Hnew : xr_coords tol (ABox dst) (Some sr) = Ok new.
+  Hypothesis Hccd : co_dims cc = [].
+  Hypothesis Hcrs : g_crs dst = Some cd.
+  Hypothesis Hny : 0 <= ny.
+  Hypothesis Hnx : 0 <= nx.
+  Hypothesis Hrun : reproject_ds repaired tol itol src dst nd = Ok out.
+  Hypothesis Hnodup : NoDup (map fst (x_vars src)).
+
+  (** a geo-registered data variable of the source *)
+  Definition geo_var (nv : string * xvar) (syd sxd : string) (pre post : list (string * Z)) : Prop :=
+    (exists dv st sb n1 n2,
+        ds_getitem src (fst nv) = Some dv /\ locate_geo_info repaired tol dv = Ok st /\
+        gs_box st = Some sb /\ box_crs sb <> None /\ gs_sdims st = Some (syd, sxd) /\
+        x_dims dv = pre ++ [(syd, n1); (sxd, n2)] ++ post) /\
+    syd <> sxd /\ other_dims_ok (pre ++ post) syd sxd.
+
+  (** a variable passed through without a geobox that brings no coordinate or
+      dimension named like the destination's *)
+  Definition plain_var (nv : string * xvar) : Prop :=
+    exists o, reproject_ds_var repaired tol itol src dst nd nv = Ok (fst nv, o) /\
+              lookup dy (x_coords o) = None /\ lookup dx (x_coords o) = None /\ lookup sr (x_coords o) = None /\
+              lookup dy (x_dims o) = None /\ lookup dx (x_dims o) = None.
+
+  Hypothesis Hall : forall nv, In nv (x_vars src) ->
+                               (exists syd sxd pre post, geo_var nv syd sxd pre post) \/ plain_var nv.
+
+  Lemma geo_var_out nv syd sxd pre post :
+    geo_var nv syd sxd pre post ->
+    exists dv,
+      ds_getitem src (fst nv) = Some dv /\
+      reproject_ds_var repaired tol itol src dst nd nv =
+      Ok (fst nv, XObj false (pre ++ [(dy, ny); (dx, nx)] ++ post) (Some sr) (out_attrs itol (x_attrs dv) nd)
+                        (aupdate (filter (fun nc => keep_pred syd sxd (snd nc)) (x_coords dv)) new) []).
+  Proof.
+    intros ((dv & st & sb & n1 & n2 & E1 & E2 & E3 & E4 & E5 & E6) & Hne & Hok).
+    exists dv. split; [exact E1|].
+    unfold reproject_ds_var. rewrite E1, E2. simpl. rewrite E3.
+    rewrite (reproject_da_unfold tol itol dv dst nd st sb syd sxd pre n1 n2 post E2 E3 E4 E5 E6 Hne Hok).
+    rewrite Hnew. reflexivity.
+  Qed.
+
+  Lemma new_lookups :
+    lookup dy (rev new) = Some cy /\ lookup dx (rev new) = Some cx /\ lookup sr (rev new) = Some cc.
+  Proof.
+    assert (N : dy <> dx /\ dy <> sr /\ dx <> sr).
+    { destruct (crs_dims_cases (g_crs dst)) as [E|E]; rewrite E; repeat split; discriminate. }
+    destruct N as (N1 & N2 & N3). simpl.
+    rewrite (eqb_neq dy sr N2), (eqb_neq dy dx N1), (eqb_neq dx sr N3), !String.eqb_refl. auto.
+  Qed.
+
+  Lemma outs_of_run :
+    exists outs,
+      mapM_res (reproject_ds_var repaired tol itol src dst nd) (x_vars src) = Ok outs /\
+      out = XObj true (fold_left (fun acc no => amerge acc (x_dims (snd no))) outs []) None
+                 (prune_spatial (x_attrs src))
+                 (fold_left (fun acc no => amerge acc (x_coords (snd no))) outs [])
+                 (map (fun no => (fst no, XVar (map fst (x_dims (snd no))) (x_attrs (snd no)) (x_gm (snd no)))) outs).
+  Proof.
+    unfold reproject_ds in Hrun.
+    destruct (locate_geo_info repaired tol src) as [st|]; simpl in Hrun; [|discriminate].
+    destruct (gs_box st); [|discriminate].
+    destruct (mapM_res (reproject_ds_var repaired tol itol src dst nd) (x_vars src)) as [outs|]; simpl in Hrun; [|discriminate].
+    injection Hrun as <-. exists outs. split; reflexivity.
+  Qed.
+
+  (** every output either carries exactly the destination's coordinates / sizes or none of those names *)
+  Lemma outs_agree outs :
+    mapM_res (reproject_ds_var repaired tol itol src dst nd) (x_vars src) = Ok outs ->
+    forall no, In no outs ->
+      (lookup dy (x_coords (snd no)) = None \/ lookup dy (x_coords (snd no)) = Some cy) /\
+      (lookup dx (x_coords (snd no)) = None \/ lookup dx (x_coords (snd no)) = Some cx) /\
+      (lookup sr (x_coords (snd no)) = None \/ lookup sr (x_coords (snd no)) = Some cc) /\
+      (lookup dy (x_dims (snd no)) = None \/ lookup dy (x_dims (snd no)) = Some ny) /\
+      (lookup dx (x_dims (snd no)) = None \/ lookup dx (x_dims (snd no)) = Some nx).
+  Proof.
+    intros Hm no Hin.
+    destruct (mapM_res_In _ _ _ _ Hm Hin) as (nv & Hnv & Hf).
+    destruct (Hall nv Hnv) as [(syd & sxd & pre & post & Hg)|(o & Ho & Q1 & Q2 & Q3 & Q4 & Q5)].
+    - destruct (geo_var_out nv syd sxd pre post Hg) as (dv & _ & E). rewrite E in Hf. injection Hf as <-.
+      destruct Hg as (_ & _ & Hok).
+      destruct (out_dims_facts pre post syd sxd (g_crs dst) ny nx Hok) as (_ & D2 & D3).
+      destruct new_lookups as (L1 & L2 & L3).
+      set (K := filter (fun nc => keep_pred syd sxd (snd nc)) (x_coords dv)).
+      assert (O1 : lookup dy (aupdate K new) = Some cy) by (rewrite out_coords_spec, L1; reflexivity).
+      assert (O2 : lookup dx (aupdate K new) = Some cx) by (rewrite out_coords_spec, L2; reflexivity).
+      assert (O3 : lookup sr (aupdate K new) = Some cc) by (rewrite out_coords_spec, L3; reflexivity).
+      cbn [snd x_coords x_dims].
+      split; [right; exact O1|]. split; [right; exact O2|]. split; [right; exact O3|].
+      split; right; [exact D2 | exact D3].
+    - rewrite Ho in Hf. injection Hf as <-. cbn [snd]. rewrite Q1, Q2, Q3, Q4, Q5. repeat split; left; reflexivity.
+  Qed.
+
+  (** attributes of the Dataset: pruned *)
+  Lemma ds_out_attrs : x_attrs out = prune_spatial (x_attrs src) /\ x_gm out = None /\ x_is_ds out = true.
+  Proof. destruct outs_of_run as (outs & _ & ->). repeat split. Qed.
+
+  (** every geo-registered variable: attributes pruned, and its DataArray view carries the
+      destination's coordinates in the shape the recovery needs *)
+  Lemma ds_var_view nv syd sxd pre post :
+    In nv (x_vars src) -> geo_var nv syd sxd pre post ->
+    exists dv v view,
+      ds_getitem src (fst nv) = Some dv /\
+      lookup (fst nv) (x_vars out) = Some v /\
+      v_attrs v = out_attrs itol (x_attrs dv) nd /\ v_gm v = Some sr /\
+      ds_getitem out (fst nv) = Some view /\ x_attrs view = v_attrs v /\
+      georef_w dy dx fyl fxl ay ax Py P (Some (sr, cc)) (iota ny) (iota nx) view.
+  Proof.
+    intros Hin Hg.
+    destruct outs_of_run as (outs & Hm & Eout).
+    destruct (geo_var_out nv syd sxd pre post Hg) as (dv & Edv & E).
+    set (o := XObj false (pre ++ [(dy, ny); (dx, nx)] ++ post) (Some sr) (out_attrs itol (x_attrs dv) nd)
+                   (aupdate (filter (fun nc => keep_pred syd sxd (snd nc)) (x_coords dv)) new) []) in *.
+    assert (Hfst : forall a0 b0, reproject_ds_var repaired tol itol src dst nd a0 = Ok b0 -> fst b0 = fst a0).
+    { intros a0 b0. unfold reproject_ds_var.
+      destruct (ds_getitem src (fst a0)); [|discriminate].
+      destruct (locate_geo_info repaired tol x) as [st0|]; simpl; [|discriminate].
+      destruct (gs_box st0).
+      - destruct (reproject_da repaired tol itol x dst nd); simpl; [|discriminate]. intros H; injection H as <-. reflexivity.
+      - intros H; injection H as <-. reflexivity. }
+    pose proof (mapM_res_lookup _ (fun o0 : xobj => XVar (map fst (x_dims o0)) (x_attrs o0) (x_gm o0))
+                                _ _ nv (fst nv, o) Hnodup Hfst Hm Hin E) as Lv.
+    cbn [snd] in Lv.
+    destruct (mapM_res_In_fwd _ _ _ nv Hm Hin) as (b & Hb & Hfb). rewrite E in Hfb. injection Hfb as <-.
+    pose proof (outs_agree outs Hm) as Hag.
+    destruct Hg as (_ & _ & Hok).
+    destruct (out_dims_facts pre post syd sxd (g_crs dst) ny nx Hok) as (_ & D2 & D3).
+    destruct new_lookups as (L1 & L2 & L3).
+    assert (Cy : lookup dy (x_coords out) = Some cy).
+    { rewrite Eout. cbn [x_coords]. apply fold_amerge_lookup.
+      - intros no Hno. apply (Hag no Hno).
+      - right. split; [reflexivity|]. exists (fst nv, o). split; [exact Hb|].
+        cbn [snd]. unfold o; cbn [x_coords]. rewrite out_coords_spec, L1. reflexivity. }
+    assert (Cx : lookup dx (x_coords out) = Some cx).
+    { rewrite Eout. cbn [x_coords]. apply fold_amerge_lookup.
+      - intros no Hno. apply (Hag no Hno).
+      - right. split; [reflexivity|]. exists (fst nv, o). split; [exact Hb|].
+        cbn [snd]. unfold o; cbn [x_coords]. rewrite out_coords_spec, L2. reflexivity. }
+    assert (Cc : lookup sr (x_coords out) = Some cc).
+    { rewrite Eout. cbn [x_coords]. apply fold_amerge_lookup.
+      - intros no Hno. apply (Hag no Hno).
+      - right. split; [reflexivity|]. exists (fst nv, o). split; [exact Hb|].
+        cbn [snd]. unfold o; cbn [x_coords]. rewrite out_coords_spec, L3. reflexivity. }
+    assert (Dy : lookup dy (x_dims out) = Some ny).
+    { rewrite Eout. cbn [x_dims]. apply fold_amerge_lookup.
+      - intros no Hno. apply (Hag no Hno).
+      - right. split; [reflexivity|]. exists (fst nv, o). split; [exact Hb|]. exact D2. }
+    assert (Dx : lookup dx (x_dims out) = Some nx).
+    { rewrite Eout. cbn [x_dims]. apply fold_amerge_lookup.
+      - intros no Hno. apply (Hag no Hno).
+      - right. split; [reflexivity|]. exists (fst nv, o). split; [exact Hb|]. exact D3. }
+    assert (Lv' : lookup (fst nv) (x_vars out) =
+                  Some (XVar (map fst (x_dims o)) (x_attrs o) (x_gm o))).
+    { rewrite Eout. exact Lv. }
+    destruct (ds_view_georef out (fst nv) (XVar (map fst (x_dims o)) (x_attrs o) (x_gm o)) pre post syd sxd
+                (g_crs dst) ny nx fyl fxl ay ax Py P cc Lv' eq_refl) as (view & V1 & V2 & V3); auto.
+    { cbn [v_attrs]. unfold o; cbn [x_attrs]. split; apply out_attrs_spatial; simpl; tauto. }
+    exists dv, (XVar (map fst (x_dims o)) (x_attrs o) (x_gm o)), view. split; [exact Edv|]. split; [exact Lv'|].
+    split; [reflexivity|]. split; [reflexivity|]. split; [exact V1|]. split; [exact V2 | exact V3].
+  Qed.
+End ReprojectDs.
